@@ -154,7 +154,7 @@ std::string exprToString(const ExprP &e)
     }
     switch (e->op) {
     case Op::CI:
-        return e->var;
+        return e->var.empty() ? "q" + std::to_string(e->quantity) : e->var;
     case Op::CN:
         return e->cnText + (e->cnExp.empty() ? "" : "e" + e->cnExp);
     case Op::DIFF:
